@@ -1,3 +1,3 @@
 #[global_allocator]
 static A: vcore::alloc::Counting = vcore::alloc::Counting;
-fn main() { vcore::main(c01::property()) }
+fn main() { vcore::main(c02::property()) }
